@@ -220,10 +220,10 @@ func cmdCheck(args []string) int {
 					switch res := out[p]; {
 					case res == "PASS":
 						validated++
+						os.Remove(p)
 					default:
 						incon = append(incon, fmt.Sprintf("ENGINE-MISMATCH: witness %s passes in the engine but natively gives %q", p, res))
 					}
-					os.Remove(p)
 				}
 				for i, d := range replayDocs {
 					if d.Multi {
